@@ -40,7 +40,7 @@ ASSUMPTIONS = sqlmon.COMMON_ASSUMPTIONS + ['bounded progress (R = 4 * #jobs + 10
                                            'the autoscaler is replaced by a harness task that keeps at least one active pool instance alive (cloud VM creation is outside the sandbox)']
 SHARDS = {'quick': 4, 'thorough': 16}
 TIMEOUT = {'quick': 900, 'thorough': 3600}
-FLOORS = {'attempts_run_by_workers': 300, 'preemptions': 20, 'cancellations': 20, 'runs_reaching_quiescence': 20, 'interleaved_statement_sites': 5000, 'jobs_rescheduled_after_preemption': 5}
+FLOORS = {'orphan_scenarios_reaching_the_sweep': 20, 'worker_accepts_whose_answer_was_lost': 20, 'attempts_run_by_workers': 300, 'preemptions': 20, 'cancellations': 20, 'runs_reaching_quiescence': 20, 'interleaved_statement_sites': 5000, 'jobs_rescheduled_after_preemption': 5}
 
 
 def J(i, parents=(), always_run=False, group=None, jp=False):
@@ -60,8 +60,114 @@ def J(i, parents=(), always_run=False, group=None, jp=False):
 
 def run(ctx):
     logging.disable(logging.CRITICAL)
+    for i, rng in ctx.cases(ctx.pick(12, 60), 'orphan'):
+        orphan_scenario(ctx, i, rng)
     for i, rng in ctx.cases(ctx.pick(40, 300)):
         one(ctx, i, rng)
+
+
+def orphan_scenario(ctx, i, rng):
+    """Directed history for "no job has two attempts both treated as current": a worker accepts attempt a1 but its answer is lost,
+    the job is placed again as a2 on another worker, a1's start report arrives late (an orphan the service now knows), and the
+    orphaned-attempt sweep runs.  Afterwards exactly the orphan's worker has been told to stop, the job still runs under a2 on a
+    worker that was not told to stop, and nothing places the job a third time."""
+    seed = rng.getrandbits(32)
+    info = {}
+
+    async def main(loop):
+        w = World(seed=seed, loop=loop, n_tokens=rng.choice([1, 2]))
+        await w.boot()
+        fz = Fuzzer(w, random.Random(seed), {'worker_reject_p': 0, 'fault_schedule_db_p': 0, 'early_job_started_p': 0})
+        from batch.front_end.validate import validate_and_clean_jobs
+        accepted = []   # (instance name, batch, job, attempt)
+        deletes = []    # (instance name, batch, job)
+        lose = {'next': True}
+
+        def http(method, url, kw):
+            async def run_():
+                ip = url.split('//')[1].split(':')[0]
+                inst = next((x for x in w.instances.values() if x.ip_address == ip), None)
+                if url.endswith('/api/v1alpha/batches/jobs/create'):
+                    body = kw.get('json') or {}
+                    accepted.append((inst.name, body['batch_id'], body['job_id'], body['job_spec']['attempt_id']))
+                    if lose['next']:
+                        lose['next'] = False
+                        raise asyncio.TimeoutError()
+                elif method == 'DELETE' and '/delete' in url:
+                    parts = url.rstrip('/').split('/')
+                    deletes.append((inst.name if inst else None, int(parts[-4]), int(parts[-2])))
+                return FakeResponse()
+            return run_()
+        w.http_handler = http
+        try:
+            user = 'alice'
+            ud = userdata(user)
+            fe = w.fe
+            n = rng.choice([1, 2])
+            bid = await fe._create_batch({'billing_project': 'bp-a', 'token': 'c39o', 'n_jobs': n}, ud, w.db)
+            u1, _, _ = await fe._create_batch_update(bid, 'c39o', n, 0, user, w.db)
+            jobs = [{'job_id': k, 'process': {'type': 'docker', 'command': ['true'], 'image': 'u'}, 'resources': {'cpu': '1', 'memory': 'standard', 'storage': '1Gi'}} for k in range(1, n + 1)]
+            validate_and_clean_jobs(jobs)
+            await fe._create_jobs(ud, jobs, bid, u1, w.fe_app)
+            await fe._commit_update(w.fe_app, bid, u1, user, w.db)
+            A = await w.create_instance('standard', cores=2)
+            pool = w.pools['standard']
+            await pool.scheduler.schedule_loop_body()
+            await fz._drain()
+            if not accepted:
+                ctx.count('orphan_setup_incomplete')
+                return
+            iname, _, jid, a1 = accepted[0]
+            B = await w.create_instance('standard', cores=16)
+            for _ in range(2):
+                await A.incr_failed_request_count()  # the lost answer is followed by more failures: the scheduler avoids A for a while
+            await pool.scheduler.schedule_loop_body()
+            await fz._drain()
+            v = View(w.engine)
+            j = v.jobs[(bid, jid)]
+            a2 = j['attempt_id']
+            row2 = w.engine.tables['attempts'].pk_get(bid, jid, a2) if a2 else None
+            if j['state'] != 'Running' or row2 is None or row2['instance_name'] != B.name:
+                ctx.count('orphan_setup_incomplete')
+                return
+            await A.mark_healthy()
+            now = w.now_ms()
+            await w.dm.job_started(fz._worker_request(A, {'status': {'batch_id': bid, 'job_id': jid, 'attempt_id': a1, 'start_time': now, 'resources': []}}))
+            orphan = w.engine.tables['attempts'].pk_get(bid, jid, a1)
+            if orphan is None or View(w.engine).jobs[(bid, jid)]['attempt_id'] != a2:
+                ctx.count('orphan_setup_incomplete')
+                return
+            ctx.count('orphan_scenarios_reaching_the_sweep')
+            n_accept = len(accepted)
+            await w.canceller.cancel_orphaned_attempts_loop_body()
+            await fz._drain()
+            await pool.scheduler.schedule_loop_body()
+            await fz._drain()
+            v = View(w.engine)
+            j = v.jobs[(bid, jid)]
+            row1 = w.engine.tables['attempts'].pk_get(bid, jid, a1)
+            row2 = w.engine.tables['attempts'].pk_get(bid, jid, a2)
+            wit = {'job': [bid, jid], 'orphan': a1, 'current': a2, 'job_row': {c: j[c] for c in ('state', 'attempt_id')}, 'deletes': deletes,
+                   'placements': accepted, 'orphan_row_end': row1 and row1['end_time'], 'current_row_end': row2 and row2['end_time']}
+            told_b = any(d[0] == B.name and d[1:] == (bid, jid) for d in deletes)
+            told_a = any(d[0] == A.name and d[1:] == (bid, jid) for d in deletes)
+            if j['state'] != 'Running' or j['attempt_id'] != a2 or (row2 is not None and row2['end_time'] is not None):
+                if not told_b:
+                    ctx.violation('double-run/current-attempt-withdrawn-without-telling-its-worker',
+                                  f'after the orphaned-attempt sweep job {(bid, jid)} is {j["state"]} under attempt {j["attempt_id"]} (was Running under {a2} on {B.name}); '
+                                  f'the worker of {a2} was never told to stop', wit)
+            if len(accepted) > n_accept and any(x[1:3] == (bid, jid) for x in accepted[n_accept:]) and not told_b:
+                ctx.violation('double-run/job-placed-again-while-its-current-attempt-runs', f'job {(bid, jid)} was placed a third time ({accepted[n_accept:]}) while attempt {a2} still runs on {B.name}', wit)
+            if not told_a or (row1 is not None and row1['end_time'] is None):
+                ctx.violation('double-run/orphaned-attempt-not-stopped', f'the orphaned attempt {a1} of job {(bid, jid)} on {A.name} was not stopped by the sweep (told={told_a}, row end={row1 and row1["end_time"]})', wit)
+            info['ok'] = True
+        finally:
+            await w.shutdown()
+    try:
+        run_virtual(main, max_steps=3_000_000)
+    except (Deadlock, StepLimit) as e:
+        ctx.inconclusive_because(f'orphan case {i}: {type(e).__name__}: {e}')
+    ctx.case(sample={'orphan_scenario': i, 'ok': info.get('ok', False)}, key=('orphan', seed), nontrivial=True)
 
 
 def one(ctx, i, rng):
@@ -76,9 +182,20 @@ def one(ctx, i, rng):
         fz = Fuzzer(w, random.Random(seed), {'worker_reject_p': 0, 'fault_schedule_db_p': 0})
         p = Patterns()
 
-        class R:  # minimal runner facade for Patterns
+        class R:  # minimal runner facade for Patterns and the edge monitor
             cur_op = 0
-        p.attach(R())
+
+            def __init__(self):
+                self.ctx = ctx
+
+            def violation(self, key, what, witness=None):
+                violations.append((key if key.startswith(('lifecycle/', 'always-run')) else 'edge/' + key, what, witness))
+        facade = R()
+        p.attach(facade)
+        # "no job has two attempts both treated as current": a job leaves Running / Creating for Ready only when the attempt it ran
+        # under is over (ended or its VM gone) - otherwise the old attempt keeps running while the job is placed again
+        edge = sqlmon.EdgeMonitor(p, check_lifecycle=True, check_cancel=False)
+        edge.attach(facade)
         r2 = random.Random(seed ^ 77)
         phase = {'faults': True, 'stop': False}
         site_log = []
@@ -87,6 +204,8 @@ def one(ctx, i, rng):
         stats = {'ran': 0, 'preempt': 0, 'cancel': 0, 'resched': 0}
         violations = []
         overlaps = []
+        known_since = {}
+        known_attempts = set()  # attempt ids the service has ever recorded (an accept whose answer and start report were both lost is unknown to it)
 
         async def delay(site):
             t = asyncio.current_task()
@@ -100,6 +219,11 @@ def one(ctx, i, rng):
         def commit_hook(db, conn):
             v = View(db)
             p.on_commit(v)
+            edge.on_commit(v)
+            for a in db.tables['attempts'].rows:
+                if a['attempt_id'] not in known_attempts:
+                    known_attempts.add(a['attempt_id'])
+                    known_since[a['attempt_id']] = loop.time()
         w.engine.commit_hooks.append(commit_hook)
 
         # ---- workers -------------------------------------------------------------------------------
@@ -117,8 +241,10 @@ def one(ctx, i, rng):
                         # the service may briefly over-run (worker accepted an attempt whose schedule_job CALL then lost a race); the
                         # orphaned-attempt loop must tell the older attempt to stop: judged at the end of the run (bounded)
                         overlaps.append((key, aid, other))
+                        other.setdefault('overlap_since', loop.time())
                     else:
                         other['stopped'] = True
+                        other.setdefault('stopped_at', loop.time())
             if intervals(key):
                 stats['resched'] += 1
             intervals(key).append(rec)
@@ -163,17 +289,26 @@ def one(ctx, i, rng):
                     raise aiohttp.ClientConnectorError(None, OSError(113, 'No route to host'))
                 if url.endswith('/api/v1alpha/batches/jobs/create') and inst is not None:
                     body = kw.get('json') or {}
-                    if any(rec['attempt'] == body['job_spec']['attempt_id'] for rec in intervals((body['batch_id'], body['job_id']))):
-                        # the real worker refuses an attempt it already has (worker.py create_job -> 403)
+                    if any(rec['attempt'] == body['job_spec']['attempt_id'] or (rec['inst'] == inst.name and rec['end'] is None and not rec['stopped'])
+                           for rec in intervals((body['batch_id'], body['job_id']))):
+                        # the real worker keys its jobs by (batch_id, job_id) and refuses a job it already has, whatever the attempt
+                        # id (worker.py create_job_1 -> 403)
                         raise aiohttp.ClientResponseError(None, (), status=403, message='attempt already exists')
                     t = asyncio.ensure_future(worker_run(inst, body))
                     worker_tasks.append(t)
+                    if phase['faults'] and r2.random() < 0.06:
+                        # the worker accepted and starts the job, but its answer does not reach the driver in time: the driver skips
+                        # its CALL schedule_job, the job stays Ready and is placed again; the first attempt is an orphan that the
+                        # orphaned-attempt sweep must stop
+                        stats['lost_accepts'] = stats.get('lost_accepts', 0) + 1
+                        raise asyncio.TimeoutError()
                 elif '/delete' in url and method == 'DELETE':
                     parts = url.rstrip('/').split('/')
                     bid, jid = int(parts[-4]), int(parts[-2])
                     for rec in intervals((bid, jid)):
                         if rec['inst'] == (inst.name if inst else None):
                             rec['stopped'] = True
+                            rec.setdefault('stopped_at', loop.time())
                 return FakeResponse()
             return run_()
         w.http_handler = http
@@ -260,6 +395,7 @@ def one(ctx, i, rng):
                         for rec in recs:
                             if rec['inst'] == inst.name:
                                 rec['stopped'] = True  # the VM is gone: whatever ran there has stopped
+                                rec.setdefault('stopped_at', loop.time())
                     await tolerated(inst.deactivate('preempted', w.now_ms()), 'preempt')
                     if r2.random() < 0.5:
                         try:
@@ -370,9 +506,36 @@ def one(ctx, i, rng):
                     violations.append((sqlmon.explain(p, 'progress/batch-not-complete', [('batch', b)]), f'batch {b} is {bt["state"]} {R} rounds after faults stopped (cancelled={(b, 0) in v.cancelled})', {'batch': b}))
             ctx.count('overlapping_attempts_observed', len(overlaps))
             for key, aid, other in overlaps:
-                if other['end'] is None and not other['stopped']:
+                if other['end'] is None and not other['stopped'] and other['attempt'] not in known_attempts:
+                    ctx.count('overlaps_with_an_attempt_the_service_never_heard_of')
+                elif other['end'] is None and not other['stopped'] and loop.time() - other['start'] < 90:
+                    ctx.count('overlaps_not_judged_run_ended_before_three_sweep_periods')
+                elif other['end'] is None and not other['stopped']:
                     violations.append(('double-run/older-attempt-never-stopped', f'job {key}: attempt {aid} was started while attempt {other["attempt"]} was running on {other["inst"]}; '
-                                       f'the older attempt was never told to stop and is still running at the end of the run', {'job': list(key), 'new': aid, 'old': other['attempt']}))
+                                       f'the older attempt was never told to stop and is still running at the end of the run',
+                                       {'job': list(key), 'new': aid, 'old': other['attempt'], 'worker_side': [dict(x) for x in intervals(key)],
+                                        'attempt_rows': [{c: a[c] for c in ('attempt_id', 'instance_name', 'start_time', 'end_time', 'reason')} for a in w.engine.tables['attempts'].rows if (a['batch_id'], a['job_id']) == key],
+                                        'job_row': {c: v.jobs[key][c] for c in ('state', 'attempt_id', 'cancelled', 'always_run')},
+                                        'instances': {i.name: i.state for i in w.instances.values()}, 'now': loop.time()}))
+            # "no job has two attempts both treated as current": two attempts of one job that the service had both recorded ran side by
+            # side (neither worker told to stop, both VMs alive) for longer than two orphan-sweep periods
+            t_end = loop.time()
+            for key, recs in running.items():
+                for i1 in range(len(recs)):
+                    for i2 in range(i1 + 1, len(recs)):
+                        a, b = recs[i1], recs[i2]
+                        if a['attempt'] not in known_attempts or b['attempt'] not in known_attempts:
+                            continue
+                        lo = max(a['start'], b['start'], known_since[a['attempt']], known_since[b['attempt']])
+                        hi = min(min(t for t in (x.get('stopped_at'), x['end'], t_end) if t is not None) for x in (a, b))
+                        ctx.count('attempt_pairs_of_one_job_compared')
+                        if hi - lo > 0:
+                            ctx.count('attempt_pairs_that_ran_concurrently')
+                        if hi - lo >= 45:
+                            violations.append(('double-run/two-recorded-attempts-ran-side-by-side', f'job {key}: attempts {a["attempt"]} on {a["inst"]} and {b["attempt"]} on {b["inst"]}, both recorded '
+                                               f'by the service, ran concurrently for {hi - lo:.0f} s and neither worker was told to stop',
+                                               {'job': list(key), 'worker_side': [dict(x) for x in recs], 'known_since': {x['attempt']: known_since.get(x['attempt']) for x in (a, b)},
+                                                'attempt_rows': [{c: r[c] for c in ('attempt_id', 'instance_name', 'start_time', 'end_time', 'reason')} for r in w.engine.tables['attempts'].rows if (r['batch_id'], r['job_id']) == key]}))
             for k, j in v.jobs.items():
                 if v.committed(j) and j['always_run'] and j['state'] == 'Cancelled':
                     violations.append((sqlmon.explain(p, 'always-run-job-cancelled', [('job', k), ('batch', k[0])]), f'always-run job {k} ended Cancelled', {'job': list(k)}))
@@ -386,6 +549,7 @@ def one(ctx, i, rng):
             await w.shutdown()
         ctx.count('attempts_run_by_workers', stats['ran'])
         ctx.count('preemptions', stats['preempt'])
+        ctx.count('worker_accepts_whose_answer_was_lost', stats.get('lost_accepts', 0))
         ctx.count('cancellations', stats['cancel'])
         ctx.count('jobs_rescheduled_after_preemption', stats['resched'])
         ctx.count('interleaved_statement_sites', len(site_log))
